@@ -36,8 +36,8 @@ TIERS = {
 }
 RULE = ('seeded runs: an edit history (2-14 ops, op mix / rule subset / name set drawn per run) over a fixed rule '
         'universe with shared prefixes, prefix splits, wildcard siblings, filter conflicts, two syntaxes of one pattern '
-        'and hook-only prefixes; sweep units: every op sequence of length <= 2 (quick) / a seeded slice of length 3 '
-        '(thorough) over a reduced op alphabet, each after a fixed seeded prelude. A run is non-trivial when at least '
+        'and hook-only prefixes; sweep units: every op sequence of length <= 2 (quick) / every op triple, in seeded order as far as the budget reaches '
+        '(thorough: every triple, in seeded order as far as the budget reaches) over a reduced op alphabet, each after a fixed prelude. A run is non-trivial when at least '
         'one edit was rejected by the router (the injected fault) or at least one removal / hook removal changed the '
         'tree. distinct = distinct digests of (op list) among non-trivial runs; states = distinct canonical '
         'serialisations of the radix tree read from outside after each step.')
@@ -207,11 +207,13 @@ def sweep_units(tier, root):
         for i in range(A):
             units.append({'prelude': p, 'first': i, 'depth': 2})
     if tier == 'thorough':
+        # every op triple over the alphabet after every prelude (4 x 29^3 = 97 556 histories), in a seeded order so
+        # that a budget that ends early still covers a uniform sample of them
         rng = random.Random(root ^ 0xC11)
-        for p in range(len(PRELUDES)):
-            for i in range(A):
-                for j in rng.sample(range(A), 6):
-                    units.append({'prelude': p, 'first': i, 'second': j, 'depth': 3})
+        triples = [{'prelude': p, 'first': i, 'second': j, 'depth': 3}
+                   for p in range(len(PRELUDES)) for i in range(A) for j in range(A)]
+        rng.shuffle(triples)
+        units.extend(triples)
     return units
 
 
